@@ -25,7 +25,7 @@ from . import common
 PROP = "C18"
 LEAN_MODULES = ["MiciVerif.Props.C18"]
 LEAN_EXTRA = ["MiciVerif.Model.Cache", "MiciVerif.Proto", "MiciVerif.Generated.CacheDeps"]
-GENERATED = True
+GENERATED = ["cache_deps"]
 
 USER_FNS = (
     "neg_log_dens", "grad_neg_log_dens", "hess_neg_log_dens", "mtp_neg_log_dens", "constr", "jacob_constr",
